@@ -2,8 +2,8 @@
 optionally call it through every call-making opcode, and dispose of the value in every way.
 Ground truth about what a program does comes from the reference VM's event log, not from here."""
 
-RESOLVE = ["GLOBAL", "STACK_GLOBAL/short", "STACK_GLOBAL/binunicode", "STACK_GLOBAL/unicode", "STACK_GLOBAL/memo", "INST"]
-CALL = ["none", "REDUCE/mark-tuple", "REDUCE/tuple1", "REDUCE/empty", "OBJ", "NEWOBJ", "NEWOBJ_EX", "computed"]
+RESOLVE = ["GLOBAL", "STACK_GLOBAL/short", "STACK_GLOBAL/binunicode", "STACK_GLOBAL/unicode", "STACK_GLOBAL/memo", "INST", "GLOBAL/memo-overwrite"]
+CALL = ["none", "REDUCE/mark-tuple", "REDUCE/tuple1", "REDUCE/empty", "OBJ", "NEWOBJ", "NEWOBJ_EX", "computed"]      # gadget() also knows 8 = OBJ without arguments
 FATE = ["result", "pop+none", "build", "append", "dictvalue", "dup+pop", "memoize+pop+none", "memoize+pop+get", "below-result"]
 MEMO_RT = ["none", "binput+pop+binget", "put+pop+get"]
 HEADER = [b"", b"\x80\x02", b"\x80\x04"]
@@ -37,6 +37,10 @@ def resolve(kind, module, name, mkey=7):
         # operands parked in the memo first
         return (sbu(module) + b"q" + bytes([mkey]) + b"0" + sbu(name) + b"q" + bytes([mkey + 1]) + b"0"
                 + b"h" + bytes([mkey]) + b"h" + bytes([mkey + 1]) + b"\x93")
+    if kind == 6:
+        # a benign global parked at memo key 1, then overwritten by MEMOIZE (which stores at len(memo) == 1) with the
+        # real global, then fetched back: the VM gets the real one (requires an empty memo before the gadget)
+        return (b"ccollections\nOrderedDict\nq\x010" + ("c%s\n%s\n" % (module, name)).encode() + b"\x940h\x01")
     raise ValueError(kind)
 
 
@@ -74,6 +78,8 @@ def gadget(rk, mrt, ck, module, name, arg="a", mkey=3):
         return g + a + b"\x85\x81"
     if ck == 6:
         return g + a + b"\x85}\x92"
+    if ck == 8:
+        return b"(" + g + b"o"             # OBJ without arguments
     raise ValueError(ck)
 
 
